@@ -346,6 +346,10 @@ func (r *hubRig) probe(name string, args []any) {
 		r.prod[d] = seq
 		r.pmu.Unlock()
 		r.x.Ev("pairing-produced", node, sd.SKI(), int(d.State())*1000000+seq)
+	case "hub.Hub.initateConnection":
+		if sd, ok := args[1].(*api.ServiceDetails); ok && sd != nil {
+			r.x.Ev("attempt", node, r.skiName(sd.SKI()), 0)
+		}
 	case "hub.Hub.HandleConnectionClosed":
 		completed, _ := args[2].(bool)
 		c := 0
